@@ -1262,6 +1262,8 @@ class MyPyAstVisitor:
 
     def _check_publicity_in_reexports(self, name: str, qname: str, parent: Module | Class) -> bool | None:
         not_internal = not is_internal(name)
+        # Dunder names count as public (like in _is_public), except for wildcard imports, which skip them
+        public_name = not_internal or name.endswith("__")
         module_qname = getattr(self.mypy_file, "fullname", "")
         module_name = getattr(self.mypy_file, "name", "")
         package_id = "/".join(module_qname.split(".")[:-1])
@@ -1309,10 +1311,10 @@ class MyPyAstVisitor:
                             if (
                                 qualified_import.qualified_name in {module_name, module_qname}
                                 and (
-                                    (qualified_import.alias is None and not_internal)
+                                    (qualified_import.alias is None and public_name)
                                     or (qualified_import.alias is not None and not is_internal(qualified_import.alias))
                                 )
-                                and not_internal
+                                and public_name
                                 and (isinstance(parent, Module) or parent.is_public)
                             ):
                                 # If the module name or alias is not internal, check if the parent is public
@@ -1327,7 +1329,7 @@ class MyPyAstVisitor:
                             if qname.endswith(qualified_import.qualified_name) and (
                                 qualified_import.alias is not None
                                 and not is_internal(qualified_import.alias)
-                                or (qualified_import.alias is None and not_internal)
+                                or (qualified_import.alias is None and public_name)
                             ):
                                 # First we check if we've found the right import then do the following:
                                 # If a specific func / class was reexported check
